@@ -142,6 +142,15 @@ def clone_impl(impl, how):
                 a.home = cell.neighborhood if getattr(a, "_vidx", 0) % 2 == 0 else impl.space.all_cells
             except Exception:
                 pass
+    # per-cell values of an attribute that the cell class also defines (a user cell class with a class-level default that single
+    # cells override): they are state of the cells and must come back in the copy (grids: the per-grid dynamic class carries the default)
+    if impl.h.kind == "grid" and impl.space is not None:
+        cells = list(impl.space.all_cells)
+        if cells and not hasattr(type(cells[0]), "owner_mark"):
+            type(cells[0]).owner_mark = None
+        for k, c in enumerate(cells):
+            if k % 3 == 0 and "owner_mark" not in c.__dict__:
+                c.owner_mark = 100 + k
     bundle = (impl.model, impl.space, impl.agents, impl.rng)
     if how == "deepcopy":
         model, space, agents, rng = copy.deepcopy(bundle)
@@ -179,6 +188,14 @@ def identity_problems(o, c):
             bad.append(f"copied agent {a._vidx} points to a cell that is not one of the copy's cells (coordinate {cell.coordinate})")
         elif cell is not None and a not in cell.agents:
             bad.append(f"copied agent {a._vidx} is not listed by the cell it reports")
+    if o.impl.h.kind == "grid":
+        by_coord = {x.coordinate: x for x in sc_.all_cells}
+        for x in so.all_cells:
+            if "owner_mark" in x.__dict__:
+                y = by_coord.get(x.coordinate)
+                got = y.__dict__.get("owner_mark", "missing") if y is not None else "no such cell"
+                if got != x.__dict__["owner_mark"]:
+                    bad.append(f"cell {x.coordinate}: the per-cell value {x.__dict__['owner_mark']} of an attribute its class also defines is {got} in the copy")
     for a in c.impl.agents:
         home = getattr(a, "home", None)
         if home is None or a not in live:
